@@ -15,6 +15,14 @@ CHECKS = {
    technique="Coq proof (frame invariant by induction over the push program, list surgery lemmas) + differential runs of random push programs through the real CreatedFrame/SendableFrame",
    text="Theorem c04_bytes: for every push program (both push kinds, any data, any override) into a frame of every size 28..2063 the bytes given to the driver equal an independent ETG-style encoding of exactly the accepted datagrams (header fields, length = max(override,data), zero padding, IRQ/WKC 0, more-follows on all but the last) and never exceed the frame size; c04_refuse / c04_rest: a datagram that does not fit is refused with the frame untouched, fill-the-rest takes exactly min(room, len). Tied by 1500 (quick) / 12000 over all 1487 sizes (thorough) random programs whose return values and transmitted bytes are compared with the model inside Coq, plus an independent Python encoder as oracle on the implementation's bytes.",
    note="Frame sizes above 2063 bytes are outside the quantifier (11-bit length field). The generated PduHeader layout and constants are pinned to the hand model by c04_header_layout."),
+ "C03": dict(
+   technique="Coq proof (ownership invariant between handle typestate and slot status preserved by every client operation; counting argument for alloc with a finite sweep over the 8 legal slot counts) + differential operation histories on the real frame slots with a drain-and-reallocate probe",
+   text="Theorem c03_capacity: for every history a client can issue (alloc, pushes, mark, drops, TX ok/partial/error, arbitrary bytes to RX, polls with/without expired deadline and any retry budget) over n slots (n any power of two <= 128), after all handles are dropped exactly n allocations succeed and the next fails; c03_alloc_fails_iff_full: alloc errs iff every slot is held by a live handle; c03_created_drop. Tied by 600 (quick) / 6000 (thorough) random histories over 1..4 slots whose every return value and per-op slot snapshot (status, key, length) are compared with the model inside Coq, with the probe evaluated on the implementation as oracle.",
+   note="Each API call is one atomic step (no pre-emption inside a call); TX claim+send is one step in this alphabet - abandonment while TX/RX is inside the buffer is the C06 window and quantified there. Atomics are sequentially consistent single steps."),
+ "C05": dict(
+   technique="Coq proof (case analysis of the receive path model against the slot-state algebra) + differential histories with structure-aware mutated frames and full before/after slot snapshots",
+   text="Theorems: non-EtherCAT / own-source frames are ignored with the state untouched (c05_ignore); for ANY bytes, unless the frame is accepted the whole state is unchanged (c05_reject_pure); an accepted frame changes exactly the first slot carrying its first datagram index, which was awaiting a response, copying the datagram area in and leaving key, length, other slots and counters alone (c05_accept_local); a frame matching no awaiting request is never accepted (c05_stranger). Tied by 600/6000 histories delivering genuine, duplicate, late, truncated, oversized, length-lying, index-perturbed and random frames in every reachable slot-state combination for 1..4 slots, comparing results and full slot contents with the model; the no-panic clause is checked by catch_unwind on every delivery.",
+   note="'Never panics' is shown by the model being total with every Rust slice/index mapped to a guarded branch plus catch_unwind on all generated inputs - the model itself cannot exhibit a panic that the guards miss. Buffer-length well-formedness (wf_pstate) is an invariant proved preserved by every operation."),
 }
 ORDER = [f"C{i:02d}" for i in range(1, 21)]
 
